@@ -31,7 +31,7 @@ RULE = ("Hypothesis draws one- or two-page documents.  mode=export: 1-4 images (
         "the declared size made of random bytes with E, I, EI<non-ws>, CR, LF, CRLF, BI, ID, ~>, parentheses patched "
         "in and first/last byte forced to CR/LF/E/I, never containing EI followed by white space; unfiltered or "
         "behind AHx/A85/Fl/LZW/RL) interleaved with BT /F1 n Tf x y Td (..) Tj ET blocks (at least one after the "
-        "last image), on the page or inside a form.  extract_pages: the LTImage sequence has one item per inline "
+        "last image), on the page (in one content stream or divided over a /Contents array between items) or inside a form.  extract_pages: the LTImage sequence has one item per inline "
         "image with get_data() = data (+ at most the writer's EOL when unfiltered; exact when filtered), srcsize, "
         "bits, colorspace as written, and the LTChar sequence (text, bbox, font, size) equals that of the same "
         "program with the inline images removed.  PSBaseParser.BUFSIZ drawn from {4096,64,16,7,5} in both modes.  "
@@ -139,8 +139,16 @@ def build_doc(pages, xobjs):
         res = {b"Font": {b"F1": W.R(5)}}
         if names:
             res[b"XObject"] = {k.encode("latin-1"): W.R(v) for k, v in names.items()}
-        objs[pn] = W.D(Type=W.N("Page"), Parent=W.R(2), MediaBox=[0, 0, 612, 792], Resources=res, Contents=W.R(cn))
-        objs[cn] = W.Stream({}, content)
+        if isinstance(content, list):
+            # the page's content divided over several streams (ISO 32000-1 7.8.2: at token boundaries)
+            refs = []
+            for j, part in enumerate(content):
+                objs[200 + 20 * i + j] = W.Stream({}, part)
+                refs.append(W.R(200 + 20 * i + j))
+            objs[pn] = W.D(Type=W.N("Page"), Parent=W.R(2), MediaBox=[0, 0, 612, 792], Resources=res, Contents=refs)
+        else:
+            objs[pn] = W.D(Type=W.N("Page"), Parent=W.R(2), MediaBox=[0, 0, 612, 792], Resources=res, Contents=W.R(cn))
+            objs[cn] = W.Stream({}, content)
         kids.append(W.R(pn))
     objs[2] = W.D(Type=W.N("Pages"), Kids=kids, Count=len(kids))
     objs.update(FONT_OBJS)
@@ -725,10 +733,20 @@ def inline_cases(draw):
     else:
         def doc(c):
             return build_doc([(c, {})], {})
+    parts = None
+    if not in_form and len(items) > 1 and draw(st.integers(0, 2)) == 0:
+        # the same program divided over several content streams, cut between items (each item ends in white space)
+        chunks = [(x + (sep if k == "t" else b"")) for k, x in items]
+        cuts = sorted(set(draw(st.lists(st.integers(1, len(chunks) - 1), min_size=1, max_size=3))))
+        parts = [b"".join(chunks[a:b]) for a, b in zip([0] + cuts, cuts + [len(chunks)])]
+        classes.add("contents-array")
+        if any(k == "i" for k, _ in items[cuts[0]:]):
+            classes.add("inline-image-in-later-stream")
+            nt = True
     inl = [{"kind": im["kind"], "w": im["w"], "h": im["h"], "data": im["data"], "eol": im["eol"], "chain": im["chain"],
             "cs_written": im["cs_written"]} for im in images]
     classes.add("inline-images:%d" % nimg)
-    return {"mode": "inline", "pdf": doc(content), "pdf_plain": doc(plain), "content": content, "inline": inl,
+    return {"mode": "inline", "pdf": doc(parts if parts is not None else content), "pdf_plain": doc(plain), "content": content, "inline": inl,
             "nglyphs": nglyphs, "bufsiz": bufsiz, "classes": sorted(classes), "nt": nt,
             "desc": {"content": repr(content[:300]), "in_form": in_form}}
 
